@@ -27,7 +27,7 @@ chk("C03", "exploration",
     "Bounded work is a per-job CPU-time budget (not the step-counting checked build planned in DESIGN §3.1, which was not built). UBSan's nonnull-attribute check is off (memset(NULL,0,0) is not one of the behaviours the property lists). Red-zone sanitizers miss non-adjacent overflows.",
     "runtime monitoring: compiler sanitizers (ASan+UBSan) + allocator interposition + status/suspension monitors in a scripted C driver over hostile inputs", "DESIGN.md §5 C03, §3.4")
 chk("C05", "exploration",
-    "For each small input (valid, truncated, corrupted) of every std decoder, one sweep runs EVERY single split point of the source (and of the destination capacity for io_transformers) and compares each chunked run with the one-shot run of the same sanitized binary on output bytes, final status, getters and (non-error) consumed count; larger inputs get seeded random multi-splits down to 1 byte. Generated coroutine programs accepted by the real checker and compiled by the real wuffs-c get the same treatment (one-shot vs every single split, byte-by-byte, random multi-splits; ASan+UBSan and -O2). Held on what was observed; one known finding (xz non-final filters).",
+    "For each small input (valid, truncated, corrupted) of every std decoder, one sweep runs EVERY single split point of the source (and of the destination capacity for io_transformers) and compares each chunked run with the one-shot run of the same sanitized binary on output bytes, final status, getters and (non-error) consumed count; larger inputs get seeded random multi-splits down to 1 byte. Generated coroutine programs accepted by the real checker and compiled by the real wuffs-c get the same treatment (one-shot vs every single split, byte-by-byte, random multi-splits; ASan+UBSan and -O2). Held on what was observed.",
     "Single-split sweeps are exhaustive per input; inputs and multi-split plans are sampled. Generated leg: coroutine programs that touch their streams only through `?` methods (incl. randomly structured bodies aimed at the liveness analysis) are run one-shot and under every single source/capacity split, byte-by-byte and random multi-splits in both C builds.",
     "runtime monitoring: differential oracle (chunked vs one-shot execution of the same compiled code) under ASan+UBSan", "DESIGN.md §5 C05")
 chk("C07", "exploration",
